@@ -40,3 +40,11 @@ package native
 //@ func (*NativeService).AddNotify
 //@   trusted   -- appends to the notification list; touches no storage
 //@   modifies this.notifications
+
+//@ func (*NativeService).PutMerkleVal
+//@   property C22
+//@   requires this != nil
+//@   modifies this.crossHashes, elems(this.crossHashes)
+//@   -- exactly one leaf is appended, the leaf hash of the given bytes; earlier leaves are kept
+//@   ensures len(this.crossHashes) == old(len(this.crossHashes)) + 1 && this.crossHashes[old(len(this.crossHashes))] == hashLeaf(old(bytes(data)))
+//@   ensures forall i int :: 0 <= i && i < old(len(this.crossHashes)) ==> this.crossHashes[i] == old(this.crossHashes[i])
